@@ -45,7 +45,7 @@ def h_step(cls: int, op: int, pa: bool, va: int, pb: bool, vb: int, ab_first: bo
     """
     pre: 0 <= cls < len(CLASSES) and pinned("cls", cls)
     pre: 0 <= op < len(OPS) and pinned("op", op)
-    pre: 0 <= va <= 1 and 0 <= vb <= 1 and 2 <= v <= 3 and 2 <= v2 <= 3
+    pre: 0 <= va <= 1 and 0 <= vb <= 1 and 0 <= v <= 3 and 2 <= v2 <= 3
     pre: 0 <= k < len(KEYS) and 0 <= k2 < len(KEYS)
     post: _
     """
@@ -83,7 +83,11 @@ def h_step(cls: int, op: int, pa: bool, va: int, pb: bool, vb: int, ab_first: bo
     if name == "get":
         return d.get(key) == ref.get(K) and d.get(key, v) == ref.get(K, v) and _same(d, ref)
     if name == "pop":
-        # documented signature: pop(key, default=None) - a missing key returns the default
+        # documented signature: pop(key, default=None) - a missing key returns the default;
+        # a stored None is a value like any other
+        if v == 0 and "AB" in ref:
+            OrderedDict.__setitem__(d, "AB", None)
+            ref["AB"] = None
         r = d.pop(key)
         e = ref.pop(K, None)
         return r == e and _same(d, ref)
